@@ -171,6 +171,20 @@ def _flat_hash(d):
         return _h(d)
 
 
+class _Tables:
+    """a table whose summary cannot be computed (the cache changed shape, an attribute is gone) is recorded as
+    unobservable instead of stopping the check: whether the change matters is decided on the results"""
+
+    def __init__(self):
+        self.out = {}
+
+    def put(self, name, cls, fn):
+        try:
+            self.out[name] = (cls, fn())
+        except Exception as e:  # noqa: BLE001
+            self.out[name] = (cls, {"unobservable": hash(type(e).__name__)})
+
+
 def shared_tables():
     """-> {table name: (class, {entry key: entry content hash})}   class: 'immutable' | 'append'
     Entry hashes are Python hashes: comparable within this process only (before / after a call)."""
@@ -184,24 +198,29 @@ def shared_tables():
     from pdfminer.pdffont import IDENTITY_ENCODER
     from pdfminer.pdfpage import PDFPage
     from pdfminer.psparser import PSBaseParser, PSKeywordTable, PSLiteralTable
-    t = {}
-    t["EncodingDB.encodings"] = ("immutable", {k: hash((id(v), _flat_hash(v))) for k, v in EncodingDB.encodings.items()})
+    t = _Tables()
+    t.put("EncodingDB.encodings", "immutable", lambda: {k: hash((id(v), _flat_hash(v))) for k, v in EncodingDB.encodings.items()})
     for nm in ("std2unicode", "mac2unicode", "win2unicode", "pdf2unicode"):
         # entry by entry (<= 256 codes): an ASSIGNED, an ADDED and a REMOVED code each show up under their own key
-        t["EncodingDB." + nm] = ("immutable", {k: hash(v) for k, v in getattr(EncodingDB, nm).items()})
-    t["glyphname2unicode"] = ("immutable", {"*": _flat_hash(glyphname2unicode), "n": len(glyphname2unicode)})
-    t["latin_enc.ENCODING"] = ("immutable", {"*": hash(tuple(ENCODING))})
-    t["FONT_METRICS"] = ("immutable", {k: hash((_h(v[0]), _flat_hash(v[1]))) for k, v in FONT_METRICS.items()})
-    t["PREDEFINED_COLORSPACE"] = ("immutable", {k: hash((id(v), v.name, v.ncomponents)) for k, v in PREDEFINED_COLORSPACE.items()})
-    t["CMapDB._cmap_cache"] = ("append", {k: hash((id(v), _h(v.attrs), _h(v.code2cid))) for k, v in CMapDB._cmap_cache.items()})
-    t["CMapDB._umap_cache"] = ("append", {k: hash(tuple((id(u), _h(u.attrs), _flat_hash(u.cid2unichr)) for u in v))
+        t.put("EncodingDB." + nm, "immutable", lambda: {k: hash(v) for k, v in getattr(EncodingDB, nm).items()})
+    t.put("glyphname2unicode", "immutable", lambda: {"*": _flat_hash(glyphname2unicode), "n": len(glyphname2unicode)})
+    t.put("latin_enc.ENCODING", "immutable", lambda: {"*": hash(tuple(ENCODING))})
+    t.put("FONT_METRICS", "immutable", lambda: {k: hash((_h(v[0]), _flat_hash(v[1]))) for k, v in FONT_METRICS.items()})
+    t.put("PREDEFINED_COLORSPACE", "immutable", lambda: {k: hash((id(v), v.name, v.ncomponents)) for k, v in PREDEFINED_COLORSPACE.items()})
+    t.put("CMapDB._cmap_cache", "append", lambda: {k: hash((id(v), _h(v.attrs), _h(v.code2cid))) for k, v in CMapDB._cmap_cache.items()})
+    # an entry is the list [horizontal, vertical]; any other shape (one map per name, ...) is summarised as it is - a
+    # differently shaped cache is a matter for the results, not a reason for the observation to fail
+    def maps(v):
+        return v if isinstance(v, (list, tuple)) else [v]
+    t.put("CMapDB._umap_cache", "append", lambda: {k: hash(tuple((id(u), _h(getattr(u, "attrs", None)), _flat_hash(getattr(u, "cid2unichr", {})))
+                                                      for u in maps(v)))
                                           for k, v in CMapDB._umap_cache.items()})
-    t["PSLiteralTable"] = ("append", {k: hash((id(v), v.name)) for k, v in PSLiteralTable.dict.items()})
-    t["PSKeywordTable"] = ("append", {k: hash((id(v), v.name)) for k, v in PSKeywordTable.dict.items()})
-    t["module scalars"] = ("immutable", {"settings.STRICT": hash(settings.STRICT), "PSBaseParser.BUFSIZ": hash(PSBaseParser.BUFSIZ),
-                                         "PDFPage.INHERITABLE_ATTRS": hash(frozenset(PDFPage.INHERITABLE_ATTRS)),
-                                         "IDENTITY_ENCODER": _flat_hash(IDENTITY_ENCODER)})
-    return t
+    t.put("PSLiteralTable", "append", lambda: {k: hash((id(v), v.name)) for k, v in PSLiteralTable.dict.items()})
+    t.put("PSKeywordTable", "append", lambda: {k: hash((id(v), v.name)) for k, v in PSKeywordTable.dict.items()})
+    t.put("module scalars", "immutable", lambda: {"settings.STRICT": hash(settings.STRICT), "PSBaseParser.BUFSIZ": hash(PSBaseParser.BUFSIZ),
+                                                  "PDFPage.INHERITABLE_ATTRS": hash(frozenset(PDFPage.INHERITABLE_ATTRS)),
+                                                  "IDENTITY_ENCODER": _flat_hash(IDENTITY_ENCODER)})
+    return t.out
 
 
 def table_summary(entries):
